@@ -366,8 +366,72 @@ def judge_twice(s, docs):
                                                                            'strict': False})
 
 
+def content_only(s, idx):
+    """The result of an add depends on the CONTENT of the running order only: at every step of a history the same
+    message is also added to a freshly parsed copy of the current text - both must end up with the same text
+    (a running-order object that remembers earlier messages outside its XML shows here)."""
+    rng = s.rng('content', idx)
+    pool = gen.text_pool('plain')
+    ids = gen.Ids('D%d.' % idx)
+    ro_txt = gen.rand_ro(rng, n_stories=rng.randint(2, 4), pool=pool, rich=False)
+    ro = s.load(ro_txt)
+    late = ['LATE-%d-%d' % (idx, k) for k in range(2)]
+    msgs = []
+    # messages about stories that are not there yet ... and, later, the messages that bring those stories
+    for k, lid in enumerate(late):
+        msgs.append(B.msg_doc('roStorySend', 20 + k, story_ref=lid, body=[E('p', 'early text for ' + lid)],
+                              fields=[E('storySlug', 'early ' + lid), 'BODY']))
+        msgs.append(B.msg_doc(rng.choice(['roStoryDelete', 'EAStoryDelete']), 30 + k, ids=[lid]))
+    for k in range(rng.randint(1, 4)):
+        msgs.append(gen.rand_message(rng, Abs(ro_txt), K.weighted_kinds(rng, K.kind_weights(1, 1, 0.3, 0)), 40 + k, ids,
+                                     pool=pool, rich=False))
+    rng.shuffle(msgs)
+    for k, lid in enumerate(late):
+        kind = rng.choice(['roStoryAppend', 'roStoryInsert', 'roStoryReplace', 'EAStoryInsert'])
+        kw = {'carried': [gen.simple_story(lid, 2)]}
+        if kind != 'roStoryAppend':
+            kw['target'] = Abs(ro_txt).story_ids[0]
+        msgs.append(B.msg_doc(kind, 60 + k, **kw))
+    for k, mtxt in enumerate(msgs):
+        before = str(ro)
+        try:
+            fresh_ro, fresh_m, live_m = s.load(before), s.load(mtxt), s.load(mtxt)
+        except Exception:
+            break
+        ro, e1, _ = s.add(ro, live_m)
+        fresh_ro, e2, _ = s.add(fresh_ro, fresh_m)
+        s.drain_and_judge(None, {'content-only': idx, 'step': k})
+        s.evaluations += 1
+        same = str(ro) == str(fresh_ro) and type(e1) is type(e2)
+        s.note_sig(('content-only', type(live_m).__name__, same))
+        if not same:
+            s.custom_violation('result-depends-on-more-than-the-content-of-the-running-order',
+                               {'kind': type(live_m).__name__, 'step': k, 'excs': [type(e1).__name__, type(e2).__name__]},
+                               {'type': 'content-only', 'ro_txt': ro_txt, 'msgs': msgs[:k + 1]},
+                               msg_kind=type(live_m).__name__, status='content-only')
+            break
+    s.hist['content_only_histories'] += 1
+
+
+def replay_content_only(s, w):
+    ro = s.load(w['ro_txt'])
+    for k, mtxt in enumerate(w['msgs']):
+        before = str(ro)
+        fresh_ro = s.load(before)
+        ro, e1, _ = s.add(ro, s.load(mtxt))
+        fresh_ro, e2, _ = s.add(fresh_ro, s.load(mtxt))
+        s.drain_and_judge(None, {'replay': True})
+        s.evaluations += 1
+        if str(ro) != str(fresh_ro) or type(e1) is not type(e2):
+            s.custom_violation('result-depends-on-more-than-the-content-of-the-running-order', {'step': k}, w, status='content-only')
+            return
+
+
 def run(s):
     q = s.tier == 'quick'
+    for c in range(60 if q else 4000):
+        if s.mine(c):
+            content_only(s, c)
     n = 50 if q else 3000
     idx = 0
     for i in range(n):
@@ -395,6 +459,8 @@ def replay(s, data):
     if w.get('scenario') == 'any':
         judge_reuse(s, w['ro_txt'], w['msg_txt'], w['kind'], 0)
         return
+    if w.get('type') == 'content-only':
+        return replay_content_only(s, w)
     if w.get('type') == 'collection':
         if w.get('shared_readers'):
             return judge_shared_readers(s, w['docs'])
